@@ -22,6 +22,9 @@ Engine.VFilter (set equality) and Engine.VSearch (subset).
 import json, os, random, sys, time
 from concurrent.futures import ThreadPoolExecutor
 sys.path.insert(0, os.path.dirname(os.path.abspath(__file__)))
+# engine lifetimes are dominated by file creation / fsync: replay on a memory file system when there is one
+if "VERIF_SCRATCH" not in os.environ and os.path.isdir("/dev/shm") and os.access("/dev/shm", os.W_OK):
+    os.environ["VERIF_SCRATCH"] = "/dev/shm/verif-c08-%d" % os.getpid()
 import vlib
 from vlib import Check, make_cfg, run_tlc, Infra
 
@@ -32,9 +35,10 @@ IDS = {"<- c_Ids2": ["a", "b"], "<- c_Ids3": ["a", "b", "c"]}
 
 
 def consts(ids="<- c_Ids2", add="<- c_Add_K8", set_="<- c_Set_K8", basis="<- c_Basis1", steps="<- c_StepsAll",
-           max_ops=4, max_ctr=4, pairs=True, extra="{}"):
+           max_ops=4, max_ctr=4, pairs=True, extra="{}", all_histories=False):
     return {"IdSeq": ids, "MKeys": "<- c_Keys", "AddMetas": add, "SetMetas": set_, "Clauses": basis, "Extra": extra,
-            "Pairs": "TRUE" if pairs else "FALSE", "Steps": steps, "MaxOps": max_ops, "MaxCtr": max_ctr, "Script": "<- c_NoScript"}
+            "Pairs": "TRUE" if pairs else "FALSE", "Steps": steps, "MaxOps": max_ops, "MaxCtr": max_ctr, "Script": "<- c_NoScript",
+            "AllHistories": "TRUE" if all_histories else "FALSE"}
 
 
 def extra_filters(rng, n, nc=12):
@@ -171,16 +175,53 @@ def harness_profile(seed, ids, basis):
 
 # ---------------------------------------------------------------------------- TLC
 
-def tlc_corpus(job):
-    """One TLC run: model-check the invariants and collect the corpus.  Returns (job, TLCResult)."""
+CHUNK = 250     # scripted histories per TLC run (a module with thousands of histories is slow to load)
+
+
+def tlc_corpus(job, chunk=None):
+    """One TLC run: model-check the invariants and collect the corpus.  chunk = (first, last) selects a
+    slice of the job's scripted histories (numbered from first + 1 in the merged corpus)."""
     c = job["consts"]
-    module, extra_files = "MC_Filter", None
+    module, extra_files, name = "MC_Filter", None, job["name"]
     if job.get("walks"):
-        module, extra_files = "MC_Filter_script", {"MC_Filter_script.tla": script_module(job["walks"])}
+        lo, hi = chunk or (0, len(job["walks"]))
+        module, extra_files = "MC_Filter_script", {"MC_Filter_script.tla": script_module(job["walks"][lo:hi])}
         c = dict(c, Script="<- c_Script")
+        name = "%s_%d" % (name, lo // CHUNK)
     cfg = make_cfg("SpecCorpus", c, job.get("invs", INVS), [], view="View")
-    r = run_tlc(module, job["name"] + ".cfg", cfg_text=cfg, workers=job.get("workers"), timeout=job.get("timeout", 1500), extra_files=extra_files)
-    return job, r
+    r = run_tlc(module, name + ".cfg", cfg_text=cfg, workers=job.get("workers"), timeout=job.get("timeout", 1500), extra_files=extra_files)
+    if job.get("walks"):
+        for rec in r.corpus:
+            rec["w"] += lo
+    return r
+
+
+def submit(pool, job):
+    if job.get("walks"):
+        n = len(job["walks"])
+        return [pool.submit(tlc_corpus, job, (lo, min(n, lo + CHUNK))) for lo in range(0, n, CHUNK)]
+    return [pool.submit(tlc_corpus, job)]
+
+
+def collect(futs):
+    """Merge the TLC runs of one job (chunks of scripted histories) into one result."""
+    rs = [f.result() for f in futs]
+    r = rs[0]
+    for x in rs[1:]:
+        r.corpus += x.corpus
+        x.corpus = []
+        r.distinct += x.distinct
+        r.generated += x.generated
+        r.depth = max(r.depth, x.depth)
+        r.wall = max(r.wall, x.wall)
+        r.ok = r.ok and x.ok
+        r.violated = r.violated or x.violated
+        r.error = r.error or x.error
+        if x.violated and not r.trace:
+            r.trace = x.trace
+    if len(rs) > 1:
+        r.cmd += " (+ %d more runs on chunks of %d scripted histories)" % (len(rs) - 1, CHUNK)
+    return r
 
 
 def behaviours_of(corpus, walks=None):
@@ -243,7 +284,7 @@ def provenance(ops):
     return prov
 
 
-TOTALS = ["behaviours", "steps", "states_judged", "filter_evals", "search_evals", "search_equal", "nontrivial", "nonempty", "div_total"]
+TOTALS = ["behaviours", "steps", "states_judged", "filter_evals", "search_evals", "search_equal", "nontrivial", "nonempty", "div_total", "div_pinned"]
 
 
 def replay(chk, behaviours, prof, totals, label):
@@ -310,7 +351,11 @@ def judge(chk, divs, behaviours, prof, c, label):
         div["diff"] = (div.get("diff") or []) + ["state obtained: " + prov]
         kf = vlib.match_known(PROP, div, beh)
         if kf:
-            chk.known.append((kf["id"], kf["what"]))
+            hits = chk.cov.setdefault("known_finding_divergences", {})
+            if kf["id"] not in hits:
+                chk.known.append((kf["id"], kf["what"]))
+                chk.cov.setdefault("known_finding_example", {})[kf["id"]] = describe(div, beh, prof)
+            hits[kf["id"]] = hits.get(kf["id"], 0) + 1
             continue
         key = (div["kind"], div.get("iface"), prov)
         if key in seen:
@@ -339,6 +384,10 @@ def bind(chk, job, r, totals, families):
     basis = r.printed["BASIS"][0]
     walks = job.get("walks")
     behaviours, nstates, njudged = behaviours_of(r.corpus, walks)
+    r.corpus = []
+    nall = len(behaviours)
+    if job.get("sample") and len(behaviours) > job["sample"]:
+        behaviours = random.Random(job["seed"]).sample(behaviours, job["sample"])
     provs, pinned_states = {}, 0
     for b in behaviours:
         ops = []
@@ -348,10 +397,6 @@ def bind(chk, job, r, totals, families):
                 p = provenance(ops)
                 provs[p] = provs.get(p, 0) + 1
                 pinned_states += 1 if s["pin"] else 0
-    r.corpus = []
-    nall = len(behaviours)
-    if job.get("sample") and len(behaviours) > job["sample"]:
-        behaviours = random.Random(job["seed"]).sample(behaviours, job["sample"])
     prof = harness_profile(job["seed"], IDS[c["IdSeq"]], basis)
     divs = replay(chk, behaviours, prof, totals, name)
     judge(chk, divs, behaviours, prof, c, name)
@@ -362,8 +407,9 @@ def bind(chk, job, r, totals, families):
                      "states_where_pinned_code_is_predicted_to_deviate": pinned_states,
                      "refinement": {k: prof[k] for k in ("keys", "strs", "num_mul", "num_add", "metric", "target")},
                      "bound": ("%d seeded histories of %d operations over ids %s, values of every type on both keys" % (len(walks), len(walks[0]), c["IdSeq"][3:])) if walks else
-                              "ids %s, metas %s / merges %s, clauses %s, steps %s, every history of <= %s operations" % (
-                                  c["IdSeq"][3:], c["AddMetas"][3:], c["SetMetas"][3:], c["Clauses"][3:], c["Steps"][3:], c["MaxOps"])})
+                              "ids %s, metas %s / merges %s, clauses %s, steps %s, %s of <= %s operations" % (
+                                  c["IdSeq"][3:], c["AddMetas"][3:], c["SetMetas"][3:], c["Clauses"][3:], c["Steps"][3:],
+                                  "EVERY history" if c["AllHistories"] == "TRUE" else "one history per reachable (state, length)", c["MaxOps"])})
 
 
 def deviation_probe(chk, c):
@@ -383,7 +429,7 @@ def run(tier):
     ids3 = IDS["<- c_Ids3"]
     if quick:
         jobs = [
-            {"name": "MC_Filter_q_types", "consts": consts(add="<- c_Add_K8", set_="<- c_Set_K8", max_ops=3, extra=extra_filters(rng, 12)), "seed": seed},
+            {"name": "MC_Filter_q_types", "consts": consts(add="<- c_Add_K8", set_="<- c_Set_K8", max_ops=3, extra=extra_filters(rng, 12), all_histories=True), "seed": seed},
             {"name": "MC_Filter_q_3ids", "consts": consts(ids="<- c_Ids3", add="<- c_Add_K3", set_="<- c_Set_K3", max_ops=3, extra=extra_filters(rng, 12)), "seed": seed + 100},
             {"name": "MC_Filter_q_2keys", "consts": consts(add="<- c_Add_KJ32", set_="<- c_Set_KJ32", basis="<- c_Basis2", max_ops=3, extra=extra_filters(rng, 12)), "seed": seed + 200},
             {"name": "MC_Filter_q_walks", "consts": consts(ids="<- c_Ids3", max_ctr=99, extra=extra_filters(rng, 12)), "seed": seed + 300,
@@ -394,31 +440,41 @@ def run(tier):
         workers, tmo = 4, 600
     else:
         jobs = [
-            {"name": "MC_Filter_t_types", "consts": consts(add="<- c_Add_K9", set_="<- c_Set_K9", max_ops=4, extra=extra_filters(rng, 24)), "seed": seed},
+            {"name": "MC_Filter_t_types", "consts": consts(add="<- c_Add_K6", set_="<- c_Set_K6", max_ops=4, extra=extra_filters(rng, 24), all_histories=True), "seed": seed},
+            {"name": "MC_Filter_t_types9", "consts": consts(add="<- c_Add_K9", set_="<- c_Set_K9", max_ops=4, extra=extra_filters(rng, 24)), "seed": seed + 50},
             {"name": "MC_Filter_t_3ids", "consts": consts(ids="<- c_Ids3", add="<- c_Add_K3", set_="<- c_Set_K3", max_ops=5, max_ctr=5, extra=extra_filters(rng, 24)), "seed": seed + 100},
-            {"name": "MC_Filter_t_2keys", "consts": consts(add="<- c_Add_KJ4", set_="<- c_Set_KJ4", basis="<- c_Basis2", max_ops=4, extra=extra_filters(rng, 24)), "seed": seed + 200},
+            # every state is model-checked; a seeded sample of its histories is replayed (the other families are replayed in full)
+            {"name": "MC_Filter_t_2keys", "consts": consts(add="<- c_Add_KJ43", set_="<- c_Set_KJ43", basis="<- c_Basis2", max_ops=4, extra=extra_filters(rng, 24)), "seed": seed + 200,
+             "sample": 120000},
             {"name": "MC_Filter_t_walks", "consts": consts(ids="<- c_Ids3", max_ctr=99, extra=extra_filters(rng, 24)), "seed": seed + 300,
-             "walks": gen_walks(rng, 2500, 24, ids3)},
+             "walks": gen_walks(rng, 2000, 20, ids3)},
             {"name": "MC_Filter_t_walks2", "consts": consts(ids="<- c_Ids3", basis="<- c_Basis2", max_ctr=99, extra=extra_filters(rng, 24)), "seed": seed + 400,
-             "walks": gen_walks(rng, 1500, 24, ids3)},
+             "walks": gen_walks(rng, 1000, 20, ids3)},
         ]
-        workers, tmo = 6, 3000
+        workers, tmo = 5, 3000
     for j in jobs:
         j.setdefault("workers", workers)
         j.setdefault("timeout", tmo)
     # the literal definitions (Expected, FromIndexes) against the tabulated form, restart agreement: small configuration
-    small = {"name": "MC_Filter_defs", "consts": consts(add="<- c_Add_K8", set_="<- c_Set_K8", max_ops=3 if quick else 4, extra=extra_filters(rng, 6), pairs=not quick),
+    small = {"name": "MC_Filter_defs", "consts": consts(add="<- c_Add_K8", set_="<- c_Set_K8", max_ops=3, extra=extra_filters(rng, 6), pairs=not quick),
              "invs": ALL_INVS, "workers": workers, "timeout": tmo}
 
     pool = ThreadPoolExecutor(max_workers=4)
-    futs = [pool.submit(tlc_corpus, j) for j in jobs]
+    futs = [(j, submit(pool, j)) for j in jobs]
     fut_small = pool.submit(tlc_corpus, small)
     fut_dev = pool.submit(deviation_probe, chk, consts(add="<- c_Add_KL", set_="<- c_Set_KL", max_ops=3, pairs=False))
     try:
-        for fut in futs:
-            job, r = fut.result()
-            bind(chk, job, r, totals, families)
-        _, r = fut_small.result()
+        pending = list(futs)            # bind every job as soon as its TLC runs are done (replays overlap the longer TLC runs)
+        while pending:
+            ready = [x for x in pending if all(f.done() for f in x[1])]
+            if not ready:
+                time.sleep(0.2)
+                continue
+            for job, fs in ready:
+                pending.remove((job, fs))
+                bind(chk, job, collect(fs), totals, families)
+        families.sort(key=lambda f: [j["name"] for j in jobs].index(f["config"]))
+        r = fut_small.result()
         chk.add_tlc("MC_Filter_defs", r)
         if r.violated:
             raise Infra("TLC: %s violated in MC_Filter_defs (specification error):\n%s" % (r.violated, "\n".join(r.trace[-2:])[:3000]))
@@ -433,7 +489,7 @@ def run(tier):
     chk.cov["traces_validated_against_impl"] = totals.get("behaviours", 0)
     chk.cov["evaluations"] = totals.get("filter_evals", 0) + totals.get("search_evals", 0)
     chk.cov["distinct_nontrivial"] = totals.get("nontrivial", 0)
-    chk.cov["exhaustive"] = True
+    chk.cov["exhaustive"] = all(f["histories_replayed"] == f["histories"] for f in families)
     chk.cov["binding"] = totals
     chk.cov["families"] = families
     for key, least in (("behaviours", 100), ("states_judged", 500), ("filter_evals", 50000), ("search_evals", 50000), ("nontrivial", 5000), ("search_equal", 5000)):
@@ -448,8 +504,8 @@ def run(tier):
             chk.infra.append("vacuous coverage: only %d judged states obtained through %s" % (provs.get(p, 0), p))
     chk.cov["states_by_provenance"] = provs
     chk.cov["rule"] = (
-        "exhaustive configurations: TLC enumerates EVERY history of the bound (one per distinct state and length) and checks Inv_IndexAgrees + structural "
-        "invariants; scripted configurations: seeded long histories (adds, merges with same/other type, deletes, re-adds, vacuum, snapshot, rewrite, reopen, compress) "
+        "exhaustive configurations: TLC enumerates the histories of the bound (EVERY history in the *_types family, one history per distinct (state, length) in the "
+        "others) and checks Inv_IndexAgrees + structural invariants on every state; scripted configurations: seeded long histories (adds, merges with same/other type, deletes, re-adds, vacuum, snapshot, rewrite, reopen, compress) "
         "are followed by TLC operation by operation under the same invariants. Every recorded state is reached on a real engine by replaying its history and judged once: "
         "every filter of the basis (12 single clauses, 66 AND pairs, 66 OR pairs, seeded 2-3 block expressions) is rendered with seeded spacing / keyword case / "
         "quoting / clause order and sent to VFilter (set equality with the specification) and VSearch (subset). "
@@ -489,7 +545,16 @@ def replay_file(path):
     return vlib.EXIT_OK
 
 
+def cleanup():
+    d = os.environ.get("VERIF_SCRATCH", "")
+    if d.startswith("/dev/shm/verif-c08-"):
+        import shutil
+        shutil.rmtree(d, ignore_errors=True)
+
+
 def main():
+    import atexit
+    atexit.register(cleanup)
     if len(sys.argv) > 2 and sys.argv[1] == "--replay":
         vlib.main_wrapper(lambda: replay_file(sys.argv[2]))
     tier = sys.argv[1] if len(sys.argv) > 1 else os.environ.get("VERIF_TIER", "quick")
